@@ -367,8 +367,8 @@ def union_write_fold_rule(repo: Repo, rep: Report, rid: str) -> None:
               "covers are dumped as zeros", fi.loc())
 
 
-def proxy_fold_rule(repo: Repo, rep: Report, rid: str) -> None:
-    rep.rule(rid, "union proxies folded on a model union (an anonymous structure, a structure member with a nested structure, a scalar): after "
+def proxy_fold_rule(repo: Repo, rep: Report, rid: str) -> bool:
+    rep.rule(rid, "union proxies folded on a model union (an anonymous structure, a structure member with a nested structure, a nested union, a scalar): after "
                   "_proxify every structure-typed member at any depth - the anonymous one included - is a proxy naming its top-level member; an "
                   "assignment through a proxy sets the attribute on the proxy's own target, rebuilds through that member once and stores nothing else on the union")
     from ..folds import fold_union_proxies
@@ -377,10 +377,11 @@ def proxy_fold_rule(repo: Repo, rep: Report, rid: str) -> None:
     fold = fold_union_proxies(repo)
     if fold is None:
         rep.ok(rid, f"{fi.key}:fold", "not foldable with the evaluator's whitelist: the structural proxy rules decide", fi.loc(), nontrivial=False)
-        return
+        return False
     bad = fold["bad"]
     rep.check(not bad, rid, f"{fi.key}:fold", f"{fold['cases']} model cases agree with the reference",
               (f"{bad[0][0]}: {bad[0][1]} is {bad[0][2]}, expected {bad[0][3]}: members reached through it and the union's buffer go out of step") if bad else "", fi.loc())
+    return True
 
 
 def rebuild_fold_rule(repo: Repo, rep: Report, rid: str) -> None:
@@ -405,7 +406,9 @@ def run(repo: Repo, rep: Report, tier: str) -> None:
     proxy_key_rule(repo, rep, "C11.R4")
     size_rule(repo, rep, "C11.R5")
     calculator_rule(repo, rep, "C11.R6")
-    proxy_cover_rule(repo, rep, "C11.R7")
+    from .compiled import fallback_rule
+
+    fallback_rule(repo, rep, proxy_fold_rule(repo, rep, "C11.R19"), "the proxy fold (R19)", proxy_cover_rule, "C11.R7")
     rid = "C11.R8"
     rep.rule(rid, "union operations are history-free: nothing reachable from reading, dumping or rebuilding a union stores state on the union type "
                   "(a memo of the write order would survive add_field)")
@@ -431,8 +434,20 @@ def run(repo: Repo, rep: Report, tier: str) -> None:
 
     default_substitution_rule(repo, rep, "C11.R17")
     call_shortcut_rule(repo, rep, "C11.R18")
-    proxy_fold_rule(repo, rep, "C11.R19")
     rebuild_fold_rule(repo, rep, "C11.R20")
     from .share import share_rules
 
     share_rules(repo, rep, tier, "c04", {"C04.R2": "C11.R21"}, "a union's size is its largest member rounded up to its alignment in aligned mode - in whichever way the union class is created")
+    from .c18 import accessor_fold_rule, late_binding_rule
+
+    # members of an anonymous structure inside a union are assigned through the accessor properties of the union class
+    accessor_fold_rule(repo, rep, "C11.R22")
+    late_binding_rule(repo, rep, "C11.R23")
+    from .c13 import parser_fold_rule
+
+    # a union written inline or through a typedef gets the alignment mode of the definition as a top-level one does (its size is rounded up)
+    parser_fold_rule(repo, rep, "C11.R24")
+    from .c04 import struct_rw_fold_rule
+
+    # a structure-typed member is encoded by the structure writer into the union's buffer: every byte of its extent is written (gaps as zeros)
+    struct_rw_fold_rule(repo, rep, "C11.R25", 3 if tier == "thorough" else 2)
